@@ -207,6 +207,9 @@ class State:
                 self.heap[k] = new
 
 
+_PURE_STR_METHODS = {'lower', 'upper', 'strip', 'lstrip', 'rstrip', 'startswith', 'endswith', 'isspace', 'isdigit',
+                     'isalnum', 'capitalize', 'title', 'replace', 'find', 'count'}
+
 # outcomes of statements
 NORMAL, RETURN, RAISE, BREAK, CONTINUE = 'normal', 'return', 'raise', 'break', 'continue'
 
@@ -1329,6 +1332,27 @@ class Interp:
             if name == 'len':
                 return [('val', K(len(items)), st)]
             return [('val', ListVal(list(items), name == 'tuple'), st)]
+        if isinstance(cv, K) and type(cv.v).__name__ == '_BoundPy' and all(isinstance(a, K) for a in args):
+            # a method of a constant (str / dict / set) with constant arguments, evaluated by the folder
+            r = cv.v.call([a.v for a in args], {})
+            if not is_unknown(r):
+                return [('val', wrap(r), st)]
+            return None
+        if isinstance(cv, K) and callable(cv.v) and isinstance(getattr(cv.v, '__self__', None), str) \
+                and getattr(cv.v, '__name__', None) in _PURE_STR_METHODS \
+                and all(isinstance(a, K) and isinstance(a.v, (str, int, tuple)) for a in args):
+            try:
+                return [('val', wrap(cv.v(*[a.v for a in args])), st)]
+            except Exception:
+                return None
+        if isinstance(cv, Sym) and cv.origin and cv.origin[0] == 'attr' and isinstance(cv.origin[1], K) \
+                and isinstance(cv.origin[1].v, str) and cv.origin[2] in _PURE_STR_METHODS \
+                and all(isinstance(a, K) and isinstance(a.v, (str, int, tuple)) for a in args):
+            # a pure method of a constant string with constant arguments: computed
+            try:
+                return [('val', wrap(getattr(cv.origin[1].v, cv.origin[2])(*[a.v for a in args])), st)]
+            except Exception:
+                return None
         if isinstance(cv, Sym) and cv.origin and cv.origin[0] == 'attr' and isinstance(cv.origin[1], ListVal) \
                 and not cv.origin[1].is_tuple:
             old = cv.origin[1]
